@@ -2,13 +2,19 @@
 //!
 //! An instrumented writer (`Probe`) records every `write` call (bytes offered, result) and behaves
 //! as a *script* says, call by call: `A` accept all, `S<k>` accept at most k bytes (`S0` = the
-//! zero-length write), `H` accept half, `E<kind>.<id>` return `Err(io::Error::new(kind, "inj-<id>"))`
-//! (kinds bp=BrokenPipe ot=Other wb=WouldBlock in=Interrupted to=TimedOut); after the script: accept all.
+//! zero-length write), `H` accept half, `E<kind>.<id>[.<form>]` return an `io::Error` of that kind
+//! (kinds bp=BrokenPipe ot=Other wb=WouldBlock in=Interrupted to=TimedOut) built in the way `<form>` says
+//! (see `Form`: `s` String payload "inj-<id>" (default), `k` bare kind, `r` raw OS error <id>, `c` the sink's
+//! own error type, `mi`/`mu`/`mw`/`mt` a `minijinja::Error` of kind InvalidOperation / UndefinedError /
+//! WriteFailure / TemplateNotFound as payload, `mc` one with a source chain, `mx` a WriteFailure whose own
+//! source is an io::Error that looks like the sink's, `i` another io::Error as payload); after the script:
+//! accept all.
 //!
 //! For every program (a set of templates + a context) and every API that takes a writer
 //!   full         Template::render_captured_to
 //!   fmt          the same with a custom formatter installed (`Emit` goes through `Environment::format`)
-//!   block:<b>    State::render_block_to_write on the state of a finished render
+//!   ufmt / cfmt  the same with a user formatter writing through every `fmt::Write` method / a careless one
+//!   block:<b>    State::render_block_to_write on the state of a finished render (ublock: / cblock: with those formatters)
 //!   fn:<b>       State::render_block_to_write called from a template function during a render
 //! the harness first does a clean run (all chunks = the write calls of that run, W of them), then
 //! re-runs with a failure injected at every call k < W (every kind, short writes, zero writes) and
@@ -24,8 +30,13 @@
 //! `psyn` = for the structured family (`s<seed>_<i>`): the program as a term of the Lean model's
 //! structured layer (`-` otherwise).
 //!
-//! `res`: ok | wf:<kind>:<id> (ErrorKind::WriteFailure whose source() is an io::Error of that kind
-//! and identity) | wfnone (WriteFailure without io source) | other | panic.
+//! `res`: ok | wf:<kind>:<id>:<form> (ErrorKind::WriteFailure whose source() is an io::Error of that kind,
+//! identity and construction — all three read off the returned error) | wfnone (WriteFailure without io
+//! source) | other | panic.
+//! `src` (oracle field): `same` when the returned error's source() IS the io::Error the sink returned at
+//! its first failing call (same kind, same raw OS code, same payload object by address), else what
+//! differs (`kind:<K>` `nosource` `notio` `iokind` `raw` `payload`); `osrc`: the same for the error
+//! with which the outer render ends (API fn).
 //!
 //! usage: c19 gen <quick|thorough> | c19 one <pid> <api> <script>
 use minijinja::value::{Object, Value};
@@ -76,8 +87,105 @@ enum Beh {
     All,
     Short(usize),
     Half,
-    Err(u8, u64), // kind code, id
-    Panic,        // the sink panics inside `write`
+    Err(u8, u64, Form), // kind code, id, how the io::Error is built
+    Panic,              // the sink panics inside `write`
+}
+
+/// how the sink builds the `io::Error` it returns
+#[derive(Clone, Copy, Debug, PartialEq)]
+enum Form {
+    /// `io::Error::new(kind, "inj-<id>")`
+    Str,
+    /// `io::Error::from(kind)`
+    Kind,
+    /// `io::Error::from_raw_os_error(id)`
+    Raw,
+    /// `io::Error::new(kind, SinkErr { id })`
+    Custom,
+    /// `io::Error::new(kind, minijinja::Error::new(<k>, "inj-<id>"))`
+    Engine(ErrorKind),
+    /// ... `.with_source(minijinja::Error::new(UndefinedError, ..))`
+    EngineChain,
+    /// `io::Error::new(kind, Error::new(WriteFailure, "inj-<id>").with_source(io::Error::new(kind, "inj-<id>")))`
+    EngineLookalike,
+    /// `io::Error::new(kind, io::Error::new(Other, "inj-<id>"))`
+    Io,
+}
+
+const FORMS: [&str; 11] = ["s", "k", "r", "c", "mi", "mu", "mw", "mt", "mc", "mx", "i"];
+const ENGINE_FORMS: [&str; 6] = ["mi", "mu", "mw", "mt", "mc", "mx"];
+
+fn form_name(f: Form) -> &'static str {
+    match f {
+        Form::Str => "s",
+        Form::Kind => "k",
+        Form::Raw => "r",
+        Form::Custom => "c",
+        Form::Engine(ErrorKind::InvalidOperation) => "mi",
+        Form::Engine(ErrorKind::UndefinedError) => "mu",
+        Form::Engine(ErrorKind::WriteFailure) => "mw",
+        Form::Engine(_) => "mt",
+        Form::EngineChain => "mc",
+        Form::EngineLookalike => "mx",
+        Form::Io => "i",
+    }
+}
+
+fn parse_form(s: &str) -> Option<Form> {
+    Some(match s {
+        "s" => Form::Str,
+        "k" => Form::Kind,
+        "r" => Form::Raw,
+        "c" => Form::Custom,
+        "mi" => Form::Engine(ErrorKind::InvalidOperation),
+        "mu" => Form::Engine(ErrorKind::UndefinedError),
+        "mw" => Form::Engine(ErrorKind::WriteFailure),
+        "mt" => Form::Engine(ErrorKind::TemplateNotFound),
+        "mc" => Form::EngineChain,
+        "mx" => Form::EngineLookalike,
+        "i" => Form::Io,
+        _ => return None,
+    })
+}
+
+/// the sink's own error type
+#[derive(Debug)]
+struct SinkErr {
+    id: u64,
+}
+impl fmt::Display for SinkErr {
+    fn fmt(&self, f: &mut fmt::Formatter<'_>) -> fmt::Result {
+        write!(f, "sink error {}", self.id)
+    }
+}
+impl std::error::Error for SinkErr {}
+
+fn build_error(code: u8, id: u64, form: Form) -> io::Error {
+    let kind = kind_of(code);
+    let msg = format!("inj-{id}");
+    match form {
+        Form::Str => io::Error::new(kind, msg),
+        Form::Kind => io::Error::from(kind),
+        Form::Raw => io::Error::from_raw_os_error(id as i32),
+        Form::Custom => io::Error::new(kind, SinkErr { id }),
+        Form::Engine(k) => io::Error::new(kind, Error::new(k, msg)),
+        Form::EngineChain => io::Error::new(kind, Error::new(ErrorKind::InvalidOperation, msg).with_source(Error::new(ErrorKind::UndefinedError, "deep cause"))),
+        Form::EngineLookalike => io::Error::new(kind, Error::new(ErrorKind::WriteFailure, msg.clone()).with_source(io::Error::new(kind, msg))),
+        Form::Io => io::Error::new(kind, io::Error::new(io::ErrorKind::Other, msg)),
+    }
+}
+
+/// address of the payload object inside an io::Error (0: none); stable while the error is moved
+fn payload_addr(e: &io::Error) -> usize {
+    e.get_ref().map(|r| r as *const (dyn std::error::Error + Send + Sync) as *const () as usize).unwrap_or(0)
+}
+
+/// what identifies the io::Error the sink handed out
+#[derive(Clone, Debug)]
+struct Issued {
+    kind: io::ErrorKind,
+    raw: Option<i32>,
+    payload: usize,
 }
 
 fn kind_of(code: u8) -> io::ErrorKind {
@@ -133,6 +241,8 @@ struct Probe {
     after_fail: usize,
     /// `flush` returns an error (script token `F`); the engine is not expected to flush at all
     flush_err: bool,
+    /// identity of the io::Error returned at the first failing call (None: `write_all`'s own WriteZero)
+    issued: Option<Issued>,
 }
 
 impl Probe {
@@ -160,12 +270,19 @@ impl io::Write for Probe {
                 self.calls.push((buf.len(), Res::Err(2, 999983)));
                 panic!("inj-panic");
             }
-            Beh::Err(code, id) => {
+            Beh::Err(code, id, form) => {
                 self.calls.push((buf.len(), Res::Err(code, id)));
-                if code != 4 && self.first_fail.is_none() {
-                    self.first_fail = Some(format!("{}:{}@{}", kind_name(kind_of(code)), id, idx));
+                let e = build_error(code, id, form);
+                // (a raw OS code decides its kind by itself: the script names the kind it expects)
+                let retried = e.kind() == io::ErrorKind::Interrupted;
+                if e.kind() != kind_of(code) {
+                    self.first_fail.get_or_insert(format!("badscript:{}@{}", kind_name(e.kind()), idx));
                 }
-                Err(io::Error::new(kind_of(code), format!("inj-{id}")))
+                if !retried && self.first_fail.is_none() {
+                    self.first_fail = Some(format!("{}:{}:{}@{}", kind_name(kind_of(code)), id, form_name(form), idx));
+                    self.issued = Some(Issued { kind: e.kind(), raw: e.raw_os_error(), payload: payload_addr(&e) });
+                }
+                Err(e)
             }
             other => {
                 let n = match other {
@@ -186,16 +303,51 @@ impl io::Write for Probe {
     fn flush(&mut self) -> io::Result<()> {
         self.flushes += 1;
         if self.flush_err {
+            let e = io::Error::new(io::ErrorKind::Other, "inj-424242");
             if self.first_fail.is_none() {
                 self.first_fail = Some(format!("flush@{}", self.calls.len()));
+                self.issued = Some(Issued { kind: e.kind(), raw: None, payload: payload_addr(&e) });
             }
-            return Err(io::Error::new(io::ErrorKind::Other, "inj-424242"));
+            return Err(e);
         }
         Ok(())
     }
 }
 
 const MODP: u64 = 4294967291;
+
+/// (shadows `mjh::hex`, which formats byte by byte: the operation logs of the big programs are megabytes)
+fn hex(bytes: &[u8]) -> String {
+    const DIGITS: &[u8; 16] = b"0123456789abcdef";
+    let mut s = String::with_capacity(bytes.len() * 2);
+    for b in bytes {
+        s.push(DIGITS[(b >> 4) as usize] as char);
+        s.push(DIGITS[(b & 15) as usize] as char);
+    }
+    s
+}
+
+/// data of an operation token: hex; in the compact form (logs that are only compared with each
+/// other, never printed) long data is replaced by its length and a hash
+fn data_tok(bytes: &[u8], full: bool) -> String {
+    if full || bytes.len() <= 24 {
+        hex(bytes)
+    } else {
+        format!("#{}:{:x}", bytes.len(), bytes.iter().fold(0xcbf29ce484222325u64, |h, b| (h ^ *b as u64).wrapping_mul(0x100000001b3)))
+    }
+}
+
+/// the compact form of a full token
+fn compact_tok(t: &str) -> String {
+    let (body, bang) = match t.strip_suffix('!') {
+        Some(b) => (b, "!"),
+        None => (t, ""),
+    };
+    match body.split_once(':') {
+        Some((head, h)) if h.len() > 48 && (head.starts_with('w') || head.starts_with('c') || head == "e") => format!("{head}:{}{bang}", data_tok(&unhex(h), false)),
+        _ => t.to_string(),
+    }
+}
 
 fn sum_bytes(bs: &[u8]) -> u64 {
     bs.iter().fold(0u64, |s, b| (s * 31 + *b as u64 + 1) % MODP)
@@ -221,8 +373,13 @@ fn parse_beh(t: &str) -> Option<Beh> {
     } else if let Some(k) = t.strip_prefix('S') {
         k.parse().ok().map(Beh::Short)
     } else if let Some(r) = t.strip_prefix('E') {
-        let (k, id) = r.split_once('.')?;
-        Some(Beh::Err(kind_code(k)?, id.parse().ok()?))
+        let mut parts = r.split('.');
+        let (k, id) = (parts.next()?, parts.next()?);
+        let form = match parts.next() {
+            Some(f) => parse_form(f)?,
+            None => Form::Str,
+        };
+        Some(Beh::Err(kind_code(k)?, id.parse().ok()?, form))
     } else {
         None
     }
@@ -441,7 +598,8 @@ fn user_formatter(out: &mut minijinja::Output, state: &mut State, value: &Value)
 }
 
 /// A careless user formatter: it drops the errors of its own writes, keeps writing, and reports
-/// a failure of the default formatter as an error of its own kind.
+/// a failure of the default formatter as an error of its own kind — also as a `WriteFailure` of its
+/// own making, with and without an io::Error (not the sink's) as source.
 fn careless_formatter(out: &mut minijinja::Output, state: &mut State, value: &Value) -> Result<(), Error> {
     let k = UCOUNT.with(|c| {
         let k = c.get();
@@ -455,11 +613,14 @@ fn careless_formatter(out: &mut minijinja::Output, state: &mut State, value: &Va
     }
     let rv = minijinja::escape_formatter(out, state, value);
     let _ = write!(out, ")");
-    match k % 4 {
+    match k % 6 {
         0 => rv,
         1 => rv.map_err(|_| Error::new(ErrorKind::InvalidOperation, "user formatter failed")),
         2 => Ok(()),
-        _ => rv.map_err(|e| Error::new(ErrorKind::BadSerialization, "wrapped").with_source(e)),
+        3 => rv.map_err(|e| Error::new(ErrorKind::BadSerialization, "wrapped").with_source(e)),
+        // errors that look like the engine's own report of a failing writer
+        4 => rv.map_err(|_| Error::new(ErrorKind::WriteFailure, "formatter could not write")),
+        _ => rv.map_err(|_| Error::new(ErrorKind::WriteFailure, "I/O error during rendering").with_source(io::Error::new(io::ErrorKind::Other, "inj-0"))),
     }
 }
 
@@ -470,7 +631,7 @@ fn fmt_mode(api: &str) -> u8 {
         1
     } else if api == "ufmt" || api.starts_with("ublock:") {
         2
-    } else if api == "cfmt" {
+    } else if api == "cfmt" || api.starts_with("cblock:") {
         3
     } else {
         0
@@ -482,7 +643,7 @@ fn is_full(api: &str) -> bool {
 }
 
 fn block_of(api: &str) -> Option<&str> {
-    api.strip_prefix("block:").or_else(|| api.strip_prefix("ublock:"))
+    api.strip_prefix("block:").or_else(|| api.strip_prefix("ublock:")).or_else(|| api.strip_prefix("cblock:"))
 }
 
 fn base_ctx() -> std::collections::BTreeMap<String, Value> {
@@ -537,11 +698,18 @@ fn base_ctx() -> std::collections::BTreeMap<String, Value> {
     for (k, v) in [("e1", "<a"), ("e2", "a<"), ("e3", "<<"), ("e4", "&"), ("e5", "a&b/c'd\"e>f<"), ("e6", "é<€>𝄞"), ("e7", ""), ("e8", "/"), ("e9", "a long string without any character that needs escaping at all"), ("e10", "x'y'z")] {
         put(k, Value::from(v));
     }
-    // 200 kB in one piece when safe; about 500 pieces when escaped
+    // 42 kB (quick) / 200 kB (thorough) in one piece when safe; about 500 pieces when escaped
     let huge = "0123456789 abcdefghijklmnopqrstuvwxyz <&> ".repeat(100);
-    put("huge_safe", Value::from_safe_string("0123456789 abcdefghijklmnopqrstuvwxyz <&> ".repeat(4800)));
+    put("huge_safe", Value::from_safe_string("0123456789 abcdefghijklmnopqrstuvwxyz <&> ".repeat(HUGE_REPEATS.load(std::sync::atomic::Ordering::Relaxed))));
     put("huge", Value::from(huge));
     m
+}
+
+/// size of the one-piece value `huge_safe` (in repetitions of a 42 byte pattern); set from the tier
+static HUGE_REPEATS: std::sync::atomic::AtomicUsize = std::sync::atomic::AtomicUsize::new(1000);
+
+fn set_tier(tier: &str) {
+    HUGE_REPEATS.store(if tier == "thorough" { 4800 } else { 1000 }, std::sync::atomic::Ordering::Relaxed);
 }
 
 fn ctx() -> Value {
@@ -590,6 +758,8 @@ struct Prog {
     fn_blocks: Vec<String>,
     /// structured family: wire form of the program as a `Prog` term, expected `flat=` verdict
     psyn: Option<(String, &'static str)>,
+    /// structured family: the term of what an API other than the whole render evaluates (`fn:<b>`)
+    api_psyn: Vec<(String, String)>,
     cfg: EnvCfg,
     /// also run with the user formatter installed (APIs `ufmt`, `ublock:<b>`)
     user_writer: bool,
@@ -607,6 +777,7 @@ fn p(pid: &str, main: &str, templates: &[(&str, &str)], blocks: &[&str], fn_bloc
         blocks: blocks.iter().map(|s| s.to_string()).collect(),
         fn_blocks: fn_blocks.iter().map(|s| s.to_string()).collect(),
         psyn: None,
+        api_psyn: vec![],
         cfg: EnvCfg::default(),
         user_writer: true,
     }
@@ -693,6 +864,8 @@ fn fixed_programs() -> Vec<Prog> {
         p("f53", "c.txt", &[("c.txt", "a{{ obj_c4 }}b{{ 42 }}c")], &[], &[]),
         p("f54", "c.txt", &[("c.txt", "{% for o in [obj_c1, obj_c2, obj_c3] %}<{{ o }}>{% endfor %}{{ [obj_c2, 1, obj_c1] }}{% include \"ci.txt\" %}"), ("ci.txt", "i{{ obj_c3 }}{% set x %}{{ obj_c2 }}{% endset %}{{ x }}j")], &[], &[]),
         p("f55", "c.html", &[("c.html", "a{{ obj_c1 }}{{ obj_c2 }}b{{ html }}")], &[], &[]),
+        // blocks whose objects keep writing after a failed write / report success (block rendering checks the adapter too)
+        p("f56", "c.txt", &[("c.txt", "{% block a %}a{{ obj_c2 }}b{{ obj_c1 }}{{ none }}{% endblock %}|{% block b %}{{ obj_c3 }}{{ 42 }}{{ obj_c4 }}{% endblock %}{{ emit_block('a') }}")], &["a", "b"], &["a"]),
         pc("f46", "m.txt", &[("m.txt", "{% for i in range(3) %}{{ i }}{% include \"x.txt\" %}{% endfor %}"), ("x.txt", "({{ loop.index }})")], EnvCfg { fuel: Some(1_000_000), loader: true, ..Default::default() }),
     ]
 }
@@ -937,7 +1110,7 @@ fn gen_program(seed: u64, index: u64) -> Prog {
             keep_trailing_newline: crng.chance(1, 5),
         }
     };
-    Prog { pid: format!("g{seed}_{index}"), templates, main, blocks, fn_blocks: vec![], psyn: None, cfg, user_writer: false }
+    Prog { pid: format!("g{seed}_{index}"), templates, main, blocks, fn_blocks: vec![], psyn: None, api_psyn: vec![], cfg, user_writer: false }
 }
 
 // ----- structured family: programs generated as terms of the model's `Prog` layer and unparsed
@@ -954,14 +1127,21 @@ enum PS {
     /// `{{ super() }}` with the parent block's body
     Super(Vec<PS>),
     Discard(Vec<PS>),
+    /// `{{ emit_block('<name>') }}`: a template function renders the block (whose content as
+    /// rendered is the body) into an `Output` of its own and returns an empty string
+    CallFn(String, Vec<PS>),
     Fail,
 }
 
 #[derive(Clone, Debug)]
 enum How {
     FilterBlock,
+    /// `{{ m<i>()|x }}`: the body is rendered on an `Output` of its own
     Macro(usize),
     SuperCaptured,
+    /// `{% call wr() %}body{% endcall %}` with `{% macro wr() %}[{{ caller() }}]{% endmacro %}`:
+    /// two nested `Output`s of their own
+    CallBlock,
 }
 
 const STEXTS: [&str; 10] = ["alpha ", "Beta", "<x>", " - ", "MiXed Case", "0", "li\nne", "(", ")", "zz top "];
@@ -972,6 +1152,7 @@ struct SGen {
     partials: Vec<Vec<PS>>,
     macros: Vec<Vec<PS>>,
     failed: bool,
+    call_blocks: usize,
 }
 
 impl SGen {
@@ -979,7 +1160,7 @@ impl SGen {
         let n = 1 + self.rng.below(4);
         let mut out: Vec<PS> = vec![];
         for _ in 0..n {
-            let choice = if depth == 0 { self.rng.below(3) } else { self.rng.below(12) };
+            let choice = if depth == 0 { self.rng.below(3) } else { self.rng.below(13) };
             let item = match choice {
                 0 | 1 => PS::Text(self.rng.pick(&STEXTS).to_string()),
                 2 | 3 if !visible.is_empty() => {
@@ -1010,6 +1191,12 @@ impl SGen {
                 9 if depth > 0 => {
                     let k = 1 + self.rng.below(3) as usize;
                     PS::Loop(k, self.seq(depth - 1, &mut visible.clone(), in_macro, allow_fail))
+                }
+                11 if depth > 0 && !in_macro => {
+                    // the caller body is a closure: it sees the variables of its surroundings
+                    let body = self.seq(depth - 1, &mut visible.clone(), true, allow_fail);
+                    self.call_blocks += 1;
+                    PS::Filt('i', body, How::CallBlock)
                 }
                 10 if allow_fail && !self.failed && self.rng.chance(1, 6) => {
                     self.failed = true;
@@ -1056,6 +1243,11 @@ fn unparse(items: &[PS], out: &mut String) {
                     }
                     How::Macro(i) => out.push_str(&format!("{{{{ m{i}(){f} }}}}")),
                     How::SuperCaptured => out.push_str(&format!("{{{{ super(){f} }}}}")),
+                    How::CallBlock => {
+                        out.push_str("{% call wr() %}");
+                        unparse(body, out);
+                        out.push_str("{% endcall %}");
+                    }
                 }
             }
             PS::Include(i, _) => out.push_str(&format!("{{% include \"inc{i}.txt\" %}}")),
@@ -1066,6 +1258,7 @@ fn unparse(items: &[PS], out: &mut String) {
             }
             PS::Super(_) => out.push_str("{{ super() }}"),
             PS::Discard(_) => unreachable!(),
+            PS::CallFn(name, _) => out.push_str(&format!("{{{{ emit_block('{name}') }}}}")),
             PS::Fail => out.push_str("{{ items.foo.bar }}"),
         }
     }
@@ -1081,17 +1274,36 @@ fn wire(items: &[PS], toks: &mut Vec<String>) {
                 toks.push(")".into());
             }
             PS::Use(v, x) => toks.push(format!("U{v}{x}")),
-            PS::Filt(x, body, how) => {
-                toks.push(format!("F{x}("));
-                if matches!(how, How::SuperCaptured) {
+            PS::Filt(x, body, how) => match how {
+                // an `Output` of its own: `M<x>(` body `)`
+                How::Macro(_) => {
+                    toks.push(format!("M{x}("));
+                    wire(body, toks);
+                    toks.push(")".into());
+                }
+                // the macro `wr` on its own `Output`: "[", the caller body on yet another one, "]"
+                How::CallBlock => {
+                    toks.push("Mi(".into());
+                    toks.push(format!("T{}", hex(b"[")));
+                    toks.push("Mi(".into());
+                    wire(body, toks);
+                    toks.push(")".into());
+                    toks.push(format!("T{}", hex(b"]")));
+                    toks.push(")".into());
+                }
+                How::SuperCaptured => {
+                    toks.push(format!("F{x}("));
                     toks.push("N1(".into());
                     wire(body, toks);
                     toks.push(")".into());
-                } else {
-                    wire(body, toks);
+                    toks.push(")".into());
                 }
-                toks.push(")".into());
-            }
+                How::FilterBlock => {
+                    toks.push(format!("F{x}("));
+                    wire(body, toks);
+                    toks.push(")".into());
+                }
+            },
             PS::Include(_, body) => {
                 toks.push("N0(".into());
                 wire(body, toks);
@@ -1112,6 +1324,11 @@ fn wire(items: &[PS], toks: &mut Vec<String>) {
                 wire(body, toks);
                 toks.push(")".into());
             }
+            PS::CallFn(_, body) => {
+                toks.push("R(".into());
+                wire(body, toks);
+                toks.push(")".into());
+            }
             PS::Fail => toks.push("X".into()),
         }
     }
@@ -1119,8 +1336,10 @@ fn wire(items: &[PS], toks: &mut Vec<String>) {
 
 fn gen_structured(seed: u64, index: u64) -> Prog {
     let rng = Rng::new(seed.wrapping_mul(7000003).wrapping_add(index) ^ 0x5EED);
-    let mut g = SGen { rng, next_var: 0, partials: vec![], macros: vec![], failed: false };
+    let mut g = SGen { rng, next_var: 0, partials: vec![], macros: vec![], failed: false, call_blocks: 0 };
     let mut templates: Vec<(String, String)> = vec![];
+    let mut fn_blocks: Vec<String> = vec![];
+    let mut api_psyn: Vec<(String, String)> = vec![];
     let executed: Vec<PS>;
     let mut main_src = String::new();
     if g.rng.chance(1, 3) {
@@ -1158,6 +1377,18 @@ fn gen_structured(seed: u64, index: u64) -> Prog {
             }
         }
         main_src.push_str("{% extends \"base.txt\" %}");
+        // every other such program ends its top-level code with a template function that renders
+        // one of the blocks (as overridden) by itself
+        let mut top = top;
+        if g.rng.chance(1, 2) {
+            let j = g.rng.below(nb as u64) as usize;
+            let body = overrides[j].clone().unwrap_or_else(|| base_items[j].1.clone());
+            let mut toks = vec![];
+            wire(&body, &mut toks);
+            fn_blocks.push(format!("b{j}"));
+            api_psyn.push((format!("fn:b{j}"), if toks.is_empty() { "-".to_string() } else { toks.join(".") }));
+            top.push(PS::CallFn(format!("b{j}"), body));
+        }
         let mut top_src = String::new();
         unparse(&top, &mut top_src);
         let mut ex = vec![PS::Discard(top)];
@@ -1167,6 +1398,9 @@ fn gen_structured(seed: u64, index: u64) -> Prog {
         }
         executed = ex;
         // macros are declared before they are used (top-level code and blocks of the child)
+        if g.call_blocks > 0 {
+            main_src.push_str("{% macro wr() %}[{{ caller() }}]{% endmacro %}");
+        }
         for (i, body) in g.macros.iter().enumerate() {
             main_src.push_str(&format!("{{% macro m{i}() %}}"));
             unparse(body, &mut main_src);
@@ -1176,6 +1410,9 @@ fn gen_structured(seed: u64, index: u64) -> Prog {
         main_src.push_str(&child_blocks);
     } else {
         let body = g.seq(3, &mut vec![], false, true);
+        if g.call_blocks > 0 {
+            main_src.push_str("{% macro wr() %}[{{ caller() }}]{% endmacro %}");
+        }
         for (i, mbody) in g.macros.iter().enumerate() {
             main_src.push_str(&format!("{{% macro m{i}() %}}"));
             unparse(mbody, &mut main_src);
@@ -1193,17 +1430,17 @@ fn gen_structured(seed: u64, index: u64) -> Prog {
     let mut toks = vec![];
     wire(&executed, &mut toks);
     let w = if toks.is_empty() { "-".to_string() } else { toks.join(".") };
-    // a macro renders into its own Output: its capture is not among the root's operations
-    // (`any`: the call may not be reached, so both verdicts occur)
-    let expect = if g.macros.is_empty() { "same" } else { "any" };
-    Prog { pid: format!("s{seed}_{index}"), templates, main: "main.txt".into(), blocks: vec![], fn_blocks: vec![], psyn: Some((w, expect)), cfg: EnvCfg::default(), user_writer: false }
+    // a macro / caller body renders into an `Output` of its own (`Prog.own` of the model): nothing of
+    // it is among the root's operations, and the flattening of the term says so
+    let expect = "same";
+    Prog { pid: format!("s{seed}_{index}"), templates, main: "main.txt".into(), blocks: vec![], fn_blocks, psyn: Some((w, expect)), api_psyn, cfg: EnvCfg::default(), user_writer: false }
 }
 
 // ------------------------------------------------------------------------------------------ running
 
 thread_local! {
     static FN_PROBE: RefCell<Option<Probe>> = const { RefCell::new(None) };
-    static FN_RESULT: RefCell<Option<(String, String)>> = const { RefCell::new(None) };
+    static FN_RESULT: RefCell<Option<(String, String, String)>> = const { RefCell::new(None) };
     static FN_REFERENCE: RefCell<Option<Result<String, Error>>> = const { RefCell::new(None) };
     static FN_LOG: RefCell<Vec<vh::Event>> = const { RefCell::new(Vec::new()) };
     /// 0: the function is not under test (it renders the block, output dropped); 1: it renders into
@@ -1219,11 +1456,11 @@ fn emit_block(state: &mut State, name: String) -> Result<String, Error> {
             vh::start();
             let rv = state.render_block_to_write(&name, &mut probe);
             FN_LOG.with(|l| *l.borrow_mut() = vh::stop());
-            FN_PROBE.with(|p| *p.borrow_mut() = Some(probe));
             let obs = match &rv {
-                Ok(()) => ("ok".to_string(), "-".to_string()),
-                Err(e) => (describe(e), format!("{:?}", e.kind())),
+                Ok(()) => ("ok".to_string(), "-".to_string(), "na".to_string()),
+                Err(e) => (describe(e), format!("{:?}", e.kind()), source_identity(e, &probe)),
             };
+            FN_PROBE.with(|p| *p.borrow_mut() = Some(probe));
             FN_RESULT.with(|r| *r.borrow_mut() = Some(obs));
             rv.map(|_| String::new())
         }
@@ -1279,23 +1516,88 @@ fn make_env(prog: &Prog, formatter: u8) -> Result<Environment<'static>, Error> {
     Ok(env)
 }
 
-/// (kind, id) of the io::Error found as `source()` of a minijinja error
-fn io_source(e: &Error) -> Option<(io::ErrorKind, u64)> {
-    let src = std::error::Error::source(e)?;
-    let io = src.downcast_ref::<io::Error>()?;
-    let msg = io.to_string();
-    let id = if let Some(r) = msg.strip_prefix("inj-") { r.parse().unwrap_or(u64::MAX) } else { 0 };
-    Some((io.kind(), id))
+fn inj_id(msg: &str) -> u64 {
+    match msg.rfind("inj-") {
+        Some(i) => msg[i + 4..].chars().take_while(|c| c.is_ascii_digit()).collect::<String>().parse().unwrap_or(u64::MAX),
+        None => 0,
+    }
+}
+
+/// (id, form) of an io::Error, read off the error itself
+fn token_of(io: &io::Error) -> (u64, &'static str) {
+    if let Some(code) = io.raw_os_error() {
+        return (code as u64, "r");
+    }
+    let Some(p) = io.get_ref() else { return (0, "k") };
+    if let Some(c) = p.downcast_ref::<SinkErr>() {
+        (c.id, "c")
+    } else if let Some(m) = p.downcast_ref::<Error>() {
+        let id = inj_id(m.detail().unwrap_or(""));
+        let src = std::error::Error::source(m);
+        let form = match (m.kind(), src) {
+            (ErrorKind::WriteFailure, Some(s)) if s.is::<io::Error>() => "mx",
+            (ErrorKind::InvalidOperation, Some(_)) => "mc",
+            (ErrorKind::InvalidOperation, None) => "mi",
+            (ErrorKind::UndefinedError, None) => "mu",
+            (ErrorKind::WriteFailure, None) => "mw",
+            (ErrorKind::TemplateNotFound, None) => "mt",
+            _ => "m?",
+        };
+        (id, form)
+    } else if let Some(i) = p.downcast_ref::<io::Error>() {
+        (inj_id(&i.to_string()), "i")
+    } else {
+        (inj_id(&p.to_string()), "s")
+    }
 }
 
 fn describe(e: &Error) -> String {
     if e.kind() == ErrorKind::WriteFailure {
-        match io_source(e) {
-            Some((k, id)) => format!("wf:{}:{}", kind_name(k), id),
+        match std::error::Error::source(e).and_then(|s| s.downcast_ref::<io::Error>()) {
+            Some(io) => {
+                let (id, form) = token_of(io);
+                format!("wf:{}:{}:{}", kind_name(io.kind()), id, form)
+            }
             None => "wfnone".to_string(),
         }
     } else {
         "other".to_string()
+    }
+}
+
+/// Is the `source()` of the returned error THE io::Error the sink returned at its first failing
+/// call?  Same kind, same raw OS code, and the same payload object (by address: the payload lives
+/// in a box of its own inside the io::Error and does not move when the error is moved).
+fn source_identity(e: &Error, probe: &Probe) -> String {
+    let Some(fail) = &probe.first_fail else { return "na".to_string() };
+    if fail.starts_with("panic@") || fail.starts_with("badscript") {
+        return "na".to_string();
+    }
+    if e.kind() != ErrorKind::WriteFailure {
+        return format!("kind:{:?}", e.kind());
+    }
+    let Some(src) = std::error::Error::source(e) else { return "nosource".to_string() };
+    let Some(io) = src.downcast_ref::<io::Error>() else { return "notio".to_string() };
+    match &probe.issued {
+        // `write_all`'s own error for `Ok(0)`: a constant of std without payload
+        None => {
+            if io.kind() == io::ErrorKind::WriteZero && io.get_ref().is_none() && io.raw_os_error().is_none() {
+                "same".to_string()
+            } else {
+                "notwritezero".to_string()
+            }
+        }
+        Some(iss) => {
+            if io.kind() != iss.kind {
+                "iokind".to_string()
+            } else if io.raw_os_error() != iss.raw {
+                "raw".to_string()
+            } else if payload_addr(io) != iss.payload {
+                "payload".to_string()
+            } else {
+                "same".to_string()
+            }
+        }
     }
 }
 
@@ -1313,7 +1615,7 @@ fn target_code(t: &vh::Target) -> String {
 /// begin_capture(Capture/Discard), `e:<hex>`/`e-` end_capture → string/undefined, `n0`/`n1` an
 /// include/super evaluation starts, `l` it returned Ok, and `m:<i>` / `m?` / `m-`: an `Emit` of
 /// the i-th captured value (same shared buffer and content) / of another string / of a non-string.
-fn op_tokens(log: &[vh::Event]) -> Vec<String> {
+fn op_tokens(log: &[vh::Event], full: bool) -> Vec<String> {
     let root = log.iter().find_map(|e| match e {
         vh::Event::New { out, .. } => Some(*out),
         _ => None,
@@ -1324,16 +1626,16 @@ fn op_tokens(log: &[vh::Event]) -> Vec<String> {
     for ev in log {
         match ev {
             vh::Event::WriteStr { out, target, data, ok } if *out == root => {
-                toks.push(format!("w{}:{}{}", target_code(target), hex(data.as_bytes()), if *ok { "" } else { "!" }));
+                toks.push(format!("w{}:{}{}", target_code(target), data_tok(data.as_bytes(), full), if *ok { "" } else { "!" }));
             }
             vh::Event::WriteChar { out, target, data, ok } if *out == root => {
-                toks.push(format!("c{}:{}{}", target_code(target), hex(data.to_string().as_bytes()), if *ok { "" } else { "!" }));
+                toks.push(format!("c{}:{}{}", target_code(target), data_tok(data.to_string().as_bytes(), full), if *ok { "" } else { "!" }));
             }
             vh::Event::BeginCapture { out, discard } if *out == root => toks.push(format!("b{}", *discard as u8)),
             vh::Event::EndCapture { out, value, ptr } if *out == root => {
                 captures.push((*ptr, value.clone()));
                 toks.push(match value {
-                    Some(v) => format!("e:{}", hex(v.as_bytes())),
+                    Some(v) => format!("e:{}", data_tok(v.as_bytes(), full)),
                     None => "e-".to_string(),
                 });
             }
@@ -1461,6 +1763,9 @@ struct Obs {
     res: String,
     kind: String,
     outer: String,
+    /// identity of the returned error's source / of the outer render's error's source (see `source_identity`)
+    src: String,
+    osrc: String,
     ops: Vec<String>,
 }
 
@@ -1469,6 +1774,7 @@ fn run_api(env: &Environment<'static>, prog: &Prog, api: &str, script: Vec<Beh>,
     let mut probe = Probe::new(script, keep_chunks);
     probe.flush_err = flush_err;
     let mut outer = "-".to_string();
+    let mut osrc = "na".to_string();
     UCOUNT.with(|c| c.set(0));
     let result: Result<Result<(), Error>, String> = if is_full(api) {
         guarded(|| {
@@ -1505,10 +1811,13 @@ fn run_api(env: &Environment<'static>, prog: &Prog, api: &str, script: Vec<Beh>,
                     Ok(_) => "ok".to_string(),
                     Err(e) => describe(e),
                 };
+                if let Err(e) = &o {
+                    osrc = source_identity(e, &probe);
+                }
                 match inner {
-                    Some((res, kind)) => {
+                    Some((res, kind, src)) => {
                         let log = FN_LOG.with(|l| std::mem::take(&mut *l.borrow_mut()));
-                        return Obs { probe, res, kind, outer, ops: op_tokens(&log) };
+                        return Obs { probe, res, kind, outer, src, osrc, ops: op_tokens(&log, keep_chunks) };
                     }
                     None => Ok(o.map(|_| ())),
                 }
@@ -1517,13 +1826,13 @@ fn run_api(env: &Environment<'static>, prog: &Prog, api: &str, script: Vec<Beh>,
     } else {
         Err("bad api".to_string())
     };
-    let (res, kind) = match &result {
-        Err(_) => ("panic".to_string(), "-".to_string()),
-        Ok(Ok(())) => ("ok".to_string(), "-".to_string()),
-        Ok(Err(e)) => (describe(e), format!("{:?}", e.kind())),
+    let (res, kind, src) = match &result {
+        Err(_) => ("panic".to_string(), "-".to_string(), "na".to_string()),
+        Ok(Ok(())) => ("ok".to_string(), "-".to_string(), "na".to_string()),
+        Ok(Err(e)) => (describe(e), format!("{:?}", e.kind()), source_identity(e, &probe)),
     };
     let log = if api.starts_with("fn:") { FN_LOG.with(|l| std::mem::take(&mut *l.borrow_mut())) } else { vh::stop() };
-    Obs { probe, res, kind, outer, ops: op_tokens(&log) }
+    Obs { probe, res, kind, outer, src, osrc, ops: op_tokens(&log, keep_chunks) }
 }
 
 /// the string the plain render of the same API returns (None: it fails) and its operation log
@@ -1560,7 +1869,7 @@ fn reference(env: &Environment<'static>, prog: &Prog, api: &str) -> (Option<Stri
         }
     };
     let log = if fn_mode { FN_LOG.with(|l| std::mem::take(&mut *l.borrow_mut())) } else { vh::stop() };
-    let ops = op_tokens(&log);
+    let ops = op_tokens(&log, true);
     match r {
         Ok(Ok(s)) => (Some(s), ops, false),
         Ok(Err(_)) => (None, ops, false),
@@ -1610,14 +1919,16 @@ fn plain_tokens(ops: &[String]) -> Vec<&str> {
 
 fn oracle_fields(o: &Obs, reference: &[u8]) -> String {
     format!(
-        "kind={} prefix={} full={} after={} fail={} flush={} outer={}",
+        "kind={} prefix={} full={} after={} fail={} flush={} outer={} src={} osrc={}",
         o.kind,
         reference.starts_with(&o.probe.accepted) as u8,
         (reference == &o.probe.accepted[..]) as u8,
         o.probe.after_fail,
         o.probe.first_fail.clone().unwrap_or_else(|| "none".to_string()),
         o.probe.flushes,
-        o.outer
+        o.outer,
+        o.src,
+        o.osrc
     )
 }
 
@@ -1625,7 +1936,24 @@ fn script_prefix(k: usize) -> String {
     if k == 0 { String::new() } else { format!("A*{k},") }
 }
 
-fn scripts_for(w: usize, total: usize, rng: &mut Rng, tier: &str, with_panic: bool) -> Vec<String> {
+/// an error token: the kind as asked for, unless the form fixes kind and id by itself
+fn err_tok(kind: &str, id: usize, form: &str) -> String {
+    match form {
+        "s" => format!("E{kind}.{id}"),
+        // a bare kind carries no identity
+        "k" => format!("E{kind}.0.k"),
+        // a raw OS error decides its kind: EPIPE, EAGAIN, EINTR, ETIMEDOUT
+        "r" => match kind {
+            "bp" => "Ebp.32.r".to_string(),
+            "wb" => "Ewb.11.r".to_string(),
+            "in" => "Ein.4.r".to_string(),
+            _ => "Eto.110.r".to_string(),
+        },
+        f => format!("E{kind}.{id}.{f}"),
+    }
+}
+
+fn scripts_for(w: usize, total: usize, rng: &mut Rng, tier: &str, with_panic: bool, all_forms: bool) -> Vec<String> {
     let mut out = vec![];
     let cap = if tier == "thorough" { 160 } else { 36 };
     let mut positions: Vec<usize> = if w <= cap {
@@ -1640,13 +1968,24 @@ fn scripts_for(w: usize, total: usize, rng: &mut Rng, tier: &str, with_panic: bo
         v
     };
     positions.dedup();
-    for &k in &positions {
+    // which construction of the io::Error meets which write call differs from program to program
+    let salt = rng.below(FORMS.len() as u64) as usize;
+    for (pi, &k) in positions.iter().enumerate() {
         let pre = script_prefix(k);
         let id = 100 + k;
-        for e in ["bp", "ot", "wb"] {
-            out.push(format!("{pre}E{e}.{id}"));
+        // every kind at every position, the construction of the error rotating through all forms
+        for (j, e) in ["bp", "ot", "wb"].iter().enumerate() {
+            out.push(format!("{pre}{}", err_tok(e, id, FORMS[(salt + 3 * pi + j) % FORMS.len()])));
         }
-        out.push(format!("{pre}Ein.{id}"));
+        // an error that carries an engine error (it "looks like" an error of the render) at every position
+        out.push(format!("{pre}{}", err_tok(["ot", "bp", "wb", "to"][(salt + pi) % 4], id, ENGINE_FORMS[(salt + pi) % ENGINE_FORMS.len()])));
+        if all_forms && w <= 16 {
+            for (j, f) in FORMS.iter().enumerate() {
+                out.push(format!("{pre}{}", err_tok(["ot", "bp", "wb", "to"][(pi + j) % 4], id + 50000, f)));
+            }
+        }
+        // Interrupted is retried whatever the error is made of
+        out.push(format!("{pre}{}", err_tok("in", id, FORMS[(salt + pi + 5) % FORMS.len()])));
         out.push(format!("{pre}S1"));
         out.push(format!("{pre}H"));
         out.push(format!("{pre}S0"));
@@ -1655,9 +1994,9 @@ fn scripts_for(w: usize, total: usize, rng: &mut Rng, tier: &str, with_panic: bo
         }
         // the sink keeps failing / fails and works alternately: only the first failure counts
         if k % 2 == 0 {
-            out.push(format!("{pre}Ewb.{id}*40"));
+            out.push(format!("{pre}{}*40", err_tok("wb", id, FORMS[(salt + pi + 7) % FORMS.len()])));
         } else {
-            out.push(format!("{pre}Eot.{id},A,Ebp.{},A,S0,A*3,Ewb.{}", id + 10000, id + 20000));
+            out.push(format!("{pre}{},A,Ebp.{},A,S0,A*3,Ewb.{}", err_tok("ot", id, FORMS[(salt + pi + 2) % FORMS.len()]), id + 10000, id + 20000));
         }
     }
     // the engine does not flush: a sink that fails only in `flush` never fails
@@ -1682,13 +2021,13 @@ fn scripts_for(w: usize, total: usize, rng: &mut Rng, tier: &str, with_panic: bo
                 2 => "S1".to_string(),
                 3 => "S3".to_string(),
                 4 => "H".to_string(),
-                _ => format!("Ein.{}", 900 + j),
+                _ => err_tok("in", 900 + j, *rng.pick(&FORMS)),
             });
         }
         toks.push(match rng.below(4) {
-            0 => format!("Ebp.{}", 500 + j),
-            1 => format!("Eot.{}", 500 + j),
-            2 => format!("Ewb.{}", 500 + j),
+            0 => err_tok("bp", 500 + j, *rng.pick(&FORMS)),
+            1 => err_tok("ot", 500 + j, *rng.pick(&FORMS)),
+            2 => err_tok("wb", 500 + j, *rng.pick(&FORMS)),
             _ => "S0".to_string(),
         });
         // a second failure behind the first must never be reached
@@ -1696,6 +2035,17 @@ fn scripts_for(w: usize, total: usize, rng: &mut Rng, tier: &str, with_panic: bo
         out.push(toks.join(","));
     }
     out
+}
+
+/// the term of the model's structured layer that this API of the program evaluates (`-`: none)
+fn psyn_of<'a>(prog: &'a Prog, api: &str) -> &'a str {
+    if let Some((_, w)) = prog.api_psyn.iter().find(|(a, _)| a == api) {
+        return w.as_str();
+    }
+    if api.starts_with("fn:") || api.contains("block:") {
+        return "-";
+    }
+    prog.psyn.as_ref().map(|p| p.0.as_str()).unwrap_or("-")
 }
 
 fn apis_of(prog: &Prog) -> Vec<String> {
@@ -1710,6 +2060,9 @@ fn apis_of(prog: &Prog) -> Vec<String> {
         v.push(format!("block:{b}"));
         if prog.user_writer {
             v.push(format!("ublock:{b}"));
+            if prog.pid.starts_with('f') {
+                v.push(format!("cblock:{b}"));
+            }
         }
     }
     for b in &prog.fn_blocks {
@@ -1718,8 +2071,12 @@ fn apis_of(prog: &Prog) -> Vec<String> {
     v
 }
 
-fn run_program(prog: &Prog, tier: &str, seed: u64, out: &mut impl io::Write, emits: &mut std::collections::BTreeSet<String>) {
+fn run_program(prog: &Prog, tier: &str, seed: u64, out: &mut impl io::Write, emits: &mut std::collections::BTreeSet<String>, mine: &mut dyn FnMut() -> bool) {
     for api in apis_of(prog) {
+        // (shards are made of (program, API) pairs)
+        if !mine() {
+            continue;
+        }
         // the random scripts of a program depend on the seed and the program only (subset runs line up)
         let h = format!("{} {}", prog.pid, api).bytes().fold(0xcbf29ce484222325u64, |h, b| (h ^ b as u64).wrapping_mul(0x100000001b3));
         let rng = &mut Rng::new(seed ^ h);
@@ -1727,7 +2084,7 @@ fn run_program(prog: &Prog, tier: &str, seed: u64, out: &mut impl io::Write, emi
             Ok(env) => env,
             Err(e) => {
                 writeln!(out, "skip\t{} {}\tcompile:{:?}", prog.pid, api, e.kind()).unwrap();
-                return;
+                continue;
             }
         };
         let clean = run_api(&env, prog, &api, vec![], true, false);
@@ -1768,7 +2125,7 @@ fn run_program(prog: &Prog, tier: &str, seed: u64, out: &mut impl io::Write, emi
             api,
             clean_tag,
             ops_field(&clean.ops),
-            prog.psyn.as_ref().map(|p| p.0.as_str()).unwrap_or("-"),
+            psyn_of(prog, &api),
             w,
             clean.probe.accepted.len(),
             sum_bytes(&clean.probe.accepted),
@@ -1780,15 +2137,17 @@ fn run_program(prog: &Prog, tier: &str, seed: u64, out: &mut impl io::Write, emi
             if !HOOKED { "na" } else if plain_tokens(&plain_ops) == plain_tokens(&clean.ops) { "same" } else { "differ" },
             if !HOOKED { "na" } else if base_chunks == clean.probe.chunks { "same" } else { "differ" },
             string_apis(&env, prog, &api, &refstr),
-            prog.psyn.as_ref().map(|p| p.1).unwrap_or("na"),
+            if psyn_of(prog, &api) == "-" { "na" } else { prog.psyn.as_ref().map(|p| p.1).unwrap_or("na") },
             n_capemit,
             prog.cfg.tag(),
         )
         .unwrap();
         // a panicking sink: not through the template function (its probe lives in a thread-local)
-        for script in scripts_for(w, clean.probe.accepted.len(), rng, tier, !api.starts_with("fn:")) {
+        // the logs of the failing runs are only compared with the clean one: compact tokens
+        let clean_cmp: Vec<String> = clean.ops.iter().map(|t| compact_tok(t)).collect();
+        for script in scripts_for(w, clean.probe.accepted.len(), rng, tier, !api.starts_with("fn:"), prog.pid.starts_with('f')) {
             let o = run_api(&env, prog, &api, parse_script(&script).expect("script"), false, flush_fails(&script));
-            writeln!(out, "case\t{} {} {}\t{}\t{}", prog.pid, api, script, model_fields(&o, &clean.ops), oracle_fields(&o, &refbytes)).unwrap();
+            writeln!(out, "case\t{} {} {}\t{}\t{}", prog.pid, api, script, model_fields(&o, &clean_cmp), oracle_fields(&o, &refbytes)).unwrap();
         }
     }
 }
@@ -1946,26 +2305,41 @@ fn main() {
     match args.get(1).map(|s| s.as_str()) {
         Some("gen") => {
             let tier = args.get(2).map(|s| s.as_str()).unwrap_or("quick").to_string();
+            set_tier(&tier);
             let seed = seed_from_env();
-            // `sub`: every fixed program and a third of the generated ones (the unhooked build)
-            let sub = args.get(3).map(|s| s == "sub").unwrap_or(false);
+            // `sub`: every fixed program and a third of the generated ones (the unhooked build);
+            // `shard=i/n`: only the programs whose running number is i modulo n (the check runs the
+            // shards in parallel; no emit stream); `emits`: only the null/emit streams
+            let flags: Vec<&str> = args.iter().skip(3).map(|s| s.as_str()).collect();
+            let sub = flags.contains(&"sub");
+            let emits_only = flags.contains(&"emits");
+            let shard: Option<(usize, usize)> = flags.iter().find_map(|f| {
+                let (i, n) = f.strip_prefix("shard=")?.split_once('/')?;
+                Some((i.parse().ok()?, n.parse().ok()?))
+            });
             let mut emits = std::collections::BTreeSet::new();
+            let mut counter = 0usize;
+            let mut mine = || {
+                let c = counter;
+                counter += 1;
+                !emits_only && shard.map(|(i, n)| c % n == i).unwrap_or(true)
+            };
             for prog in fixed_programs() {
-                run_program(&prog, &tier, seed, &mut out, &mut emits);
+                run_program(&prog, &tier, seed, &mut out, &mut emits, &mut mine);
             }
             let n = if tier == "thorough" { 1500 } else { 180 } / if sub { 3 } else { 1 };
             for i in 0..n {
                 let mut prog = gen_program(seed, i);
                 // the third of the generated programs that the unhooked build runs too
                 prog.user_writer = i < (if tier == "thorough" { 1500 } else { 180 }) / 3;
-                run_program(&prog, &tier, seed, &mut out, &mut emits);
+                run_program(&prog, &tier, seed, &mut out, &mut emits, &mut mine);
             }
             let n = if tier == "thorough" { 1500 } else { 150 } / if sub { 3 } else { 1 };
             for i in 0..n {
                 let prog = gen_structured(seed, i);
-                run_program(&prog, &tier, seed, &mut out, &mut emits);
+                run_program(&prog, &tier, seed, &mut out, &mut emits, &mut mine);
             }
-            if HOOKED {
+            if HOOKED && (emits_only || shard.is_none()) {
                 run_null(&mut out);
                 run_strings(&mut emits);
                 run_values(&mut emits);
@@ -1976,6 +2350,8 @@ fn main() {
         }
         Some("one") => {
             let (pid, api, script) = (&args[2], &args[3], &args[4]);
+            // (replay: `./check C19 --tier <tier> --replay <file>` passes the tier in the environment)
+            set_tier(&std::env::var("VERIF_TIER").unwrap_or_default());
             let prog = find_program(pid).expect("unknown program id");
             for (name, src) in &prog.templates {
                 writeln!(out, "# template {name}: {src:?}").unwrap();
@@ -2001,7 +2377,7 @@ fn main() {
                 api,
                 clean_tag,
                 ops_field(&clean.ops),
-                prog.psyn.as_ref().map(|p| p.0.as_str()).unwrap_or("-"),
+                psyn_of(&prog, api),
                 clean.probe.calls.len(),
                 clean.res
             )
